@@ -40,6 +40,11 @@ package configuration
 //@ ghost readCfgTerm int
 //@ ghost readCfgAppliedTerm int
 //@ ghost readCfgMaster string
+//@ ghost readValuesDom map[string]bool
+//@ ghost readValuesVal map[string]int
+// the value map handed to the last Update (the configuration that gets persisted)
+//@ ghost writtenValuesDom map[string]bool
+//@ ghost writtenValuesVal map[string]int
 
 // Ghost view of the persisted record (what a crash would leave behind).
 //@ ghost storedCfgCommitted int
@@ -69,14 +74,17 @@ package configuration
 //@   probe cfgTerm: result.Status.Mastership.Term
 //@   probe cfgAppliedTerm: result.Status.Applied.Mastership.Term
 //@   probe cfgState: result.Status.State
-//@   modifies storedCfgCommitted, storedCfgApplied, readCfgOK, readCfgIndex, readCfgProposed, readCfgCommitted, readCfgApplied, readCfgState, readCfgTerm, readCfgAppliedTerm, readCfgMaster
+//@   modifies storedCfgCommitted, storedCfgApplied, readCfgOK, readCfgIndex, readCfgProposed, readCfgCommitted, readCfgApplied, readCfgState, readCfgTerm, readCfgAppliedTerm, readCfgMaster, readValuesDom, readValuesVal
 //@   ensures readCfgOK == (err == nil)
+//@   ensures err == nil ==> readValuesDom == domOf(result.Values) && readValuesVal == valsOf(result.Values)
 //@   ensures err == nil ==> readCfgIndex == result.Index && readCfgProposed == result.Status.Proposed.Index && readCfgCommitted == result.Status.Committed.Index && readCfgApplied == result.Status.Applied.Index && readCfgState == result.Status.State && readCfgTerm == result.Status.Mastership.Term && readCfgAppliedTerm == result.Status.Applied.Mastership.Term && readCfgMaster == result.Status.Mastership.Master
 //@   ensures err != nil ==> result == nil && storedCfgCommitted == old(storedCfgCommitted) && storedCfgApplied == old(storedCfgApplied)
 //@   ensures err == nil ==> result != nil && fresh(result) && cfgSnapshotted(result)
 //@   ensures err == nil ==> (result.Values == nil || fresh(result.Values)) && (result.Status.Applied.Values == nil || fresh(result.Status.Applied.Values)) && (result.Values == nil || result.Values != result.Status.Applied.Values)
 //@   ensures err == nil ==> storedCfgCommitted == result.Status.Committed.Index && storedCfgApplied == result.Status.Applied.Index
 //@   ensures err == nil ==> result.Status.Applied.Mastership.Term <= result.Status.Mastership.Term
+// record invariant: both value maps are keyed by the paths of their values
+//@   ensures err == nil ==> keyedByPath(result.Values) && keyedByPath(result.Status.Applied.Values)
 
 //@ iface Store.Create(ctx, configuration) (err)
 //@   requires configuration != nil
@@ -106,8 +114,9 @@ package configuration
 //@   guard {C01,C02,C07} cfg.applied-index-monotone: configuration.Status.Applied.Index >= configuration.snapApplied
 //@   guard {C02,C07} cfg.values-write-advances-committed: configuration.Status.Committed.Index > configuration.snapCommitted
 //@   guard {C10} cfg.term-monotone: configuration.Status.Mastership.Term >= configuration.snapTerm && configuration.Status.Applied.Mastership.Term >= configuration.snapAppliedTerm
-//@   modifies configuration.ObjectMeta, configuration.Values, configuration.tracked, configuration.snapIndex, configuration.snapProposed, configuration.snapCommitted, configuration.snapApplied, configuration.snapTerm, configuration.snapAppliedTerm, configuration.snapState, configuration.snapMaster, configuration.snapValues, configuration.snapAppliedValues, configuration.snapValuesDom, configuration.snapValuesVal, configuration.snapAppliedDom, configuration.snapAppliedVal, storedCfgCommitted, storedCfgApplied, cfgValueWrites, writtenCfgTerm, writtenCfgMaster, writtenCfgAppliedTerm, writtenCfgState, writtenCfgProposed, writtenCfgCommitted, writtenCfgApplied, writtenCfgIndex
+//@   modifies configuration.ObjectMeta, configuration.Values, configuration.tracked, configuration.snapIndex, configuration.snapProposed, configuration.snapCommitted, configuration.snapApplied, configuration.snapTerm, configuration.snapAppliedTerm, configuration.snapState, configuration.snapMaster, configuration.snapValues, configuration.snapAppliedValues, configuration.snapValuesDom, configuration.snapValuesVal, configuration.snapAppliedDom, configuration.snapAppliedVal, storedCfgCommitted, storedCfgApplied, cfgValueWrites, writtenValuesDom, writtenValuesVal, writtenCfgTerm, writtenCfgMaster, writtenCfgAppliedTerm, writtenCfgState, writtenCfgProposed, writtenCfgCommitted, writtenCfgApplied, writtenCfgIndex
 //@   ensures cfgValueWrites == old(cfgValueWrites) + 1
+//@   ensures writtenValuesDom == old(domOf(configuration.Values)) && writtenValuesVal == old(valsOf(configuration.Values))
 //@   ensures writtenCfgTerm == configuration.Status.Mastership.Term && writtenCfgMaster == configuration.Status.Mastership.Master && writtenCfgAppliedTerm == configuration.Status.Applied.Mastership.Term && writtenCfgState == configuration.Status.State && writtenCfgProposed == configuration.Status.Proposed.Index && writtenCfgCommitted == configuration.Status.Committed.Index && writtenCfgApplied == configuration.Status.Applied.Index && writtenCfgIndex == configuration.Index
 //@   ensures err == nil ==> cfgSnapshotted(configuration) && storedCfgCommitted == configuration.Status.Committed.Index && storedCfgApplied == configuration.Status.Applied.Index
 //@   ensures err != nil ==> !configuration.tracked && storedCfgCommitted == old(storedCfgCommitted) && storedCfgApplied == old(storedCfgApplied)
